@@ -1,6 +1,8 @@
 import ConduitModel.Proofs.MonRun
 import ConduitModel.Proofs.MonTop
 import ConduitModel.Proofs.MonFTop
+import ConduitModel.Proofs.MonSAll
+import ConduitModel.Proofs.MonGTop
 
 /-!
 # Monitor soundness for the arch-v2 engine model (C01 / C04 / C05 / C07 / C08 on the run)
@@ -18,29 +20,39 @@ Proved here (all over the whole multi-batch run, every fuel / window / outcome):
   fan-out and without record splitting;
 * `monitor_sound_nosplit_fan1` — ALL clauses for trees with fan-out, no fan-out below another one,
   without record splitting;
-* `C01_v2_monitor_sound_linear_nosplit` / `…_nosplit_fan1` — the same per property (`Mon.runTagged c`).
+* `monitor_sound_linear` — ALL clauses for pipelines without fan-out, RECORD SPLITTING INCLUDED
+  (`SplitRecord`, split runs, pieces retried / filtered / nacked one by one), under the additional tag
+  discipline `FreshTags` of the run (Proofs/MonS*.lean: the run ledger of Proofs/PassS*.lean restated
+  against the monitor);
+* `monitor_sound_fan1` — ALL clauses for trees with fan-out (not nested), RECORD SPLITTING INCLUDED:
+  above the fan-out (the split runs are cloned per branch) and inside the branches, under
+  `RootPreserving` and `FreshTags` (Proofs/MonG*.lean: the split-run proof restated against the
+  abstract handler contract `MC` of the fan-out proof, with its failure modes);
+* `C01_v2_monitor_sound_linear_nosplit` / `…_nosplit_fan1` / `C01_v2_monitor_sound_linear` /
+  `C01_v2_monitor_sound_fan1` — the same per property (`Mon.runTagged c`).
 
 NOT proved (the full statement, kept here as the goal):
 
     theorem C01_v2_monitor_sound (fuel tree scripts batches s₀)
         (hsrc : tree.kind = .source) (hnd : (tasksS tree).Nodup)
-        (hsorted : (batches.flatten.map Mon.root).Pairwise (· < ·)) (hfresh : <derived tags are fresh>)
+        (hsorted : (batches.flatten.map Mon.root).Pairwise (· < ·))
         (hlog : s₀.log = #[]) (hscr : s₀.scripts = scripts)
-        (hrp : RootPreserving scripts ((runBatches fuel tree batches).run.run s₀).2.log.toList) :
+        (hrp : RootPreserving scripts ((runBatches fuel tree batches).run.run s₀).2.log.toList)
+        (hft : FreshTags scripts batches ((runBatches fuel tree batches).run.run s₀).2.log.toList) :
         Mon.run tree scripts batches ((runBatches fuel tree batches).run.run s₀).2.log.toList = []
 
-  missing: (a) NESTED fan-out — the handler contract (`MC`, Proofs/MonFInv.lean), the tally invariant
-  (`MAInv`, Proofs/MonFMultiDefs.lean) and its contract (`multiMC`) are written for an arbitrary parent
-  chain, but they need the parent's failed `Ack`s to be benign (`Benign`: the state invariant survives),
-  which holds for the root chain (a failed `Worker.Ack` changes nothing) and NOT for a tally as parent:
+  i.e. `monitor_sound_fan1` without `Fan1 tree`. Missing: NESTED fan-out — the handler contract (`MC`,
+  Proofs/MonFInv.lean), the tally invariant (`MAInv`, Proofs/MonFMultiDefs.lean) and its contract
+  (`multiMC` / `multiMC0`) are written for an arbitrary parent chain, and so is the task recursion
+  (`pipeG_all`, Proofs/MonGPipe.lean, with the fan-out case as a parameter), but the tally contract
+  needs the parent's failed `Ack`s to be benign (`Benign`: the state invariant survives), which holds
+  for the root chain (a failed `Worker.Ack` changes nothing) and NOT for a tally as parent:
   `multiAckNacker.Ack` counts the votes BEFORE `releaseLocked` can fail, and `released` of the calling
   tally is not advanced on failure, so a retried release of the same ack run would be counted twice by
   the parent. What excludes this in the model is that an ack run is only ever released from a call of
   the LAST branch of its fan-out, whose failure ends that branch — an argument across nesting levels
   that is not formalised here (in the concurrent Go engine the branches interleave, so there the retry
-  is conceivable when `parent.Ack` fails and the pipeline is not torn down at once);
-  (b) RECORD SPLITTING (`SplitRecord`, split runs): needs tag-attributed facts per piece and the run
-  ledger invariants of Proofs/PassS*.lean restated against the monitor.
+  is conceivable when `parent.Ack` fails and the pipeline is not torn down at once).
 -/
 namespace Conduit.Funnel
 open Conduit.Funnel.Mon
@@ -169,13 +181,13 @@ theorem C01_v2_monitor_sound_linear_nosplit (fuel : Nat) (tree : TaskNode) (scri
 
 /-! ## the whole monitor on pipelines WITH fan-out (not nested), without record splitting -/
 
-theorem initial_WInv (G : Ctx) (s₀ : PS) (hlog : s₀.log = #[]) (hscr : s₀.scripts = G.scripts) (hns : NS G.scripts) :
+theorem initial_WInv (G : Ctx) (s₀ : PS) (hlog : s₀.log = #[]) (hscr : s₀.scripts = G.scripts) (_hns : NS G.scripts) :
     WInv G 0 s₀ ∧ RestedT G s₀ := by
   obtain ⟨hI, _, hn⟩ := initial_GInv G s₀ hlog hscr
   have hmu : G.mu s₀ = { pending := G.batches.flatten } := by
     unfold Ctx.mu Ctx.muL runStT; rw [hlog]; rfl
   have hE : G.errT s₀ = [] := by unfold Ctx.errT; rw [hlog]; rfl
-  refine ⟨⟨⟨⟨hI.safe, hI.sc, hI.wr, ?_, ?_, by rw [hscr]; exact hns⟩, ?_, hn, ?_, ?_⟩, ?_⟩, ⟨?_, ?_⟩⟩
+  refine ⟨⟨⟨⟨hI.safe, hI.sc, hI.wr, ?_, ?_, fun hg => by rw [hscr]; exact hg⟩, ?_, hn, ?_, ?_⟩, ?_⟩, ⟨?_, ?_⟩⟩
   · rw [hE]; intro x hx; cases hx
   · rw [hmu]; intro x hx; cases hx
   · rw [hlog]; rfl
@@ -336,5 +348,250 @@ set_option maxRecDepth 100000 in
 example : ackedKeys ((runBatches 40 tree batches).run.run s0).2.log = [1, 2, 3] := by decide +kernel
 
 end ExFan
+
+/-! ## the whole monitor on linear pipelines WITH record splitting -/
+
+/-- `FreshTags scripts batches log` — the tag discipline of the harness generators (`fresh` in
+harness/cmd/h_funnel/run.go), as a checkable condition on the event log of the run: in every
+processor call of the log, the records the scripted reply puts into the batch (a `SingleRecord`, the
+pieces of a `MultiRecord`) carry, per input record, distinct tags, and every such tag that is not
+the tag of its own input record is NEW in the case: it is not the tag of a source record nor of any
+record an earlier (or the same) reply put into a batch, and it is introduced only once. (The C05
+"duplicate write" clause identifies a written record by its tag.) -/
+def FreshTags (scripts : List (Nat × List Reply)) (batches : List (List Rec)) (log : List Ev) : Prop :=
+  ftRun scripts (batches.flatten.map (·.tag)) [] log = true
+
+instance (scripts : List (Nat × List Reply)) (batches : List (List Rec)) (log : List Ev) :
+    Decidable (FreshTags scripts batches log) := by
+  unfold FreshTags; infer_instance
+
+/-- ALL clauses of the trace monitor (C01 unjustified ack, C04 ack order, C05 duplicate / out-of-order
+write, C07 DLQ clauses, C08 failed record acked) are silent on every run of the model, for pipelines
+WITHOUT FAN-OUT (`Linear tree`, any depth, any mix of processors and destinations), RECORD SPLITTING
+INCLUDED (`SplitRecord`: a processor may reply a `MultiRecord` with two or more pieces; pieces may be
+split again, retried, filtered, nacked one by one): any fuel, window configuration, batches, DLQ
+replies and every outcome of the run. In particular, for a split record: the original position is
+acknowledged only after every piece was confirmed by every destination or filtered, and if any piece
+failed (processor error, rejected by a destination) the ORIGINAL record is dead-lettered once and
+acknowledged only after the DLQ confirmed it. Hypotheses as for `monitor_sound_linear_nosplit`
+(without `NS scripts`), plus the tag discipline `FreshTags` of the run. -/
+theorem monitor_sound_linear (fuel : Nat) (tree : TaskNode) (scripts : List (Nat × List Reply))
+    (batches : List (List Rec)) (s₀ : PS)
+    (hlin : Linear tree) (hsrc : tree.kind = .source) (hnd : (Mon.dests tree).Nodup)
+    (hsorted : (batches.flatten.map Mon.root).Pairwise (· < ·))
+    (hlog : s₀.log = #[]) (hscr : s₀.scripts = scripts)
+    (hrp : RootPreserving scripts ((runBatches fuel tree batches).run.run s₀).2.log.toList)
+    (hft : FreshTags scripts batches ((runBatches fuel tree batches).run.run s₀).2.log.toList) :
+    Mon.run tree scripts batches ((runBatches fuel tree batches).run.run s₀).2.log.toList = [] := by
+  rw [run_nil_iff]
+  unfold Mon.runT
+  by_cases hwf : sourceWellFormed batches = true
+  · simp only [hwf, Bool.not_true, Bool.false_eq_true, if_false]
+    let G : Ctx := ⟨tree, scripts, batches⟩
+    have hs : Src G := ⟨hwf, hsorted⟩
+    have ht : TreeOK G := ⟨hlin, hsrc, hnd⟩
+    obtain ⟨hI, hq, hn⟩ := initial_GInv G s₀ hlog hscr
+    have hw : WSeen G s₀ := by
+      have hmu : G.mu s₀ = { pending := G.batches.flatten } := by
+        unfold Ctx.mu Ctx.muL runStT; rw [hlog]; rfl
+      intro e he; rw [hmu] at he; cases he
+    rcases hx : exec (runBatches fuel tree batches) s₀ with ⟨r, s'⟩
+    have e : (runBatches fuel tree batches).run.run s₀ = (r, s') := hx
+    rw [e] at hrp hft ⊢
+    exact runBatches_monS hs (depsS G hs) ht fuel batches [] s₀ s' r rfl hI hq hw hn hx hrp hft
+  · simp [hwf]
+
+/-- the same per property (`c = .c01`: the C01 clause, `.c05`, `.c07`, `.c08`, `.c04`) -/
+theorem C01_v2_monitor_sound_linear (fuel : Nat) (tree : TaskNode) (scripts : List (Nat × List Reply))
+    (batches : List (List Rec)) (s₀ : PS)
+    (hlin : Linear tree) (hsrc : tree.kind = .source) (hnd : (Mon.dests tree).Nodup)
+    (hsorted : (batches.flatten.map Mon.root).Pairwise (· < ·))
+    (hlog : s₀.log = #[]) (hscr : s₀.scripts = scripts)
+    (hrp : RootPreserving scripts ((runBatches fuel tree batches).run.run s₀).2.log.toList)
+    (hft : FreshTags scripts batches ((runBatches fuel tree batches).run.run s₀).2.log.toList) (c : Clause) :
+    Mon.runTagged c tree scripts batches ((runBatches fuel tree batches).run.run s₀).2.log.toList = [] := by
+  have := (run_nil_iff _ _ _ _).mp
+    (monitor_sound_linear fuel tree scripts batches s₀ hlin hsrc hnd hsorted hlog hscr hrp hft)
+  unfold Mon.runTagged
+  rw [this]
+  rfl
+
+/-! ## non-vacuity of the splitting theorem -/
+namespace ExSplit
+open Conduit.Dlq
+
+/-- source → processor 1 → processor 5 → destination 2 -/
+def lin : TaskNode := .mk 0 .source [.mk 1 .proc [.mk 5 .proc [.mk 2 .dest []]]]
+def batches : List (List Rec) := [[⟨1, some 1⟩, ⟨2, some 2⟩, ⟨3, some 3⟩], [⟨4, some 4⟩]]
+/-- Tags as the harness generates them: `root + 1000·n`, each new tag used once.
+P1 splits record 1 into two pieces and record 3 into three, keeps record 2. P5 keeps the first piece
+of record 1, does not answer for the second (→ retry, kept on the second attempt with a new tag),
+filters record 2, and errors on the middle piece of record 3 — the nack spreads over the sibling
+pieces, the ORIGINAL record 3 is dead-lettered. Second batch: P5 splits record 4, D2 confirms the
+first piece and rejects the second: the original record 4 is dead-lettered. -/
+def scripts : List (Nat × List Reply) :=
+  [(1, [.proc [.multi [⟨1001, some 1⟩, ⟨2001, none⟩], .single ⟨2, some 2⟩,
+               .multi [⟨1003, some 3⟩, ⟨2003, none⟩, ⟨3003, some 9⟩]],
+        .proc [.single ⟨4, some 4⟩]]),
+   (5, [.proc [.single ⟨1001, some 1⟩, .nil, .filter, .single ⟨1003, some 3⟩, .error none, .single ⟨3003, some 9⟩],
+        .proc [.single ⟨4001, none⟩],
+        .proc [.multi [⟨1004, some 4⟩, ⟨2004, some 4⟩]]]),
+   (2, [.dest none [.acks [(some 1, none)]], .dest none [.acks [(none, none)]],
+        .dest none [.acks [(some 4, none), (some 4, some {})]]]),
+   (9, [.dest none [.acks [(some 3, none)]], .dest none [.acks [(some 4, none)]]])]
+def s0 : PS := { win := Win.new 10 5, thr := 5, size := 10, dlqTask := 9, scripts := scripts }
+
+theorem hlin : Linear lin :=
+  .mk _ _ _ (by decide) (fun n hn => by
+    rw [List.mem_singleton.mp hn]
+    exact .mk _ _ _ (by decide) (fun n hn => by
+      rw [List.mem_singleton.mp hn]
+      exact .mk _ _ _ (by decide) (fun n hn => by
+        rw [List.mem_singleton.mp hn]
+        exact .mk _ _ _ (by decide) (fun _ hn => nomatch hn))))
+example : lin.kind = .source := rfl
+example : (Mon.dests lin).Nodup := by decide
+example : ¬ NS scripts := by decide
+example : (batches.flatten.map Mon.root).Pairwise (· < ·) := by decide
+example : Mon.sourceWellFormed batches = true := by decide
+example : s0.log = #[] ∧ s0.scripts = scripts := ⟨rfl, rfl⟩
+set_option maxRecDepth 100000 in
+theorem hrp : RootPreserving scripts ((runBatches 40 lin batches).run.run s0).2.log.toList := by decide +kernel
+set_option maxRecDepth 100000 in
+theorem hft : FreshTags scripts batches ((runBatches 40 lin batches).run.run s0).2.log.toList := by decide +kernel
+-- every record acknowledged, in order: 1 after both pieces were written, 2 filtered, 3 and 4 after
+-- the dead-letter write of the ORIGINAL record was confirmed
+set_option maxRecDepth 100000 in
+example : ackedKeys ((runBatches 40 lin batches).run.run s0).2.log = [1, 2, 3, 4] := by decide +kernel
+/-- the theorem applies to this run -/
+example : Mon.run lin scripts batches ((runBatches 40 lin batches).run.run s0).2.log.toList = [] :=
+  monitor_sound_linear 40 lin scripts batches s0 hlin rfl (by decide) (by decide) rfl rfl hrp hft
+
+/-- WHY `FreshTags`: two pieces of one record with the SAME tag, written to the destination in two
+writes (the second piece is retried), look like a duplicate write of one record — the C05 clause
+fires although the engine is right. -/
+def scriptsTag : List (Nat × List Reply) :=
+  [(1, [.proc [.multi [⟨1001, some 1⟩, ⟨1001, none⟩]]]),
+   (5, [.proc [.single ⟨1001, some 1⟩, .nil], .proc [.single ⟨1001, none⟩]]),
+   (2, [.dest none [.acks [(some 1, none)]], .dest none [.acks [(none, none)]]])]
+set_option maxRecDepth 100000 in
+example : Mon.run lin scriptsTag [[⟨1, some 1⟩]]
+    ((runBatches 40 lin [[⟨1, some 1⟩]]).run.run { s0 with scripts := scriptsTag }).2.log.toList ≠ [] := by decide +kernel
+set_option maxRecDepth 100000 in
+example : ¬ FreshTags scriptsTag [[⟨1, some 1⟩]]
+    ((runBatches 40 lin [[⟨1, some 1⟩]]).run.run { s0 with scripts := scriptsTag }).2.log.toList := by decide +kernel
+
+end ExSplit
+
+/-! ## the whole monitor on pipelines WITH fan-out (not nested) AND record splitting -/
+
+theorem initial_WInvS (G : Ctx) (s₀ : PS) (hlog : s₀.log = #[]) (hscr : s₀.scripts = G.scripts) :
+    WInv G 0 s₀ ∧ RestedT G s₀ ∧ WSeen G s₀ := by
+  obtain ⟨hI, _, hn⟩ := initial_GInv G s₀ hlog hscr
+  have hmu : G.mu s₀ = { pending := G.batches.flatten } := by
+    unfold Ctx.mu Ctx.muL runStT; rw [hlog]; rfl
+  have hE : G.errT s₀ = [] := by unfold Ctx.errT; rw [hlog]; rfl
+  refine ⟨⟨⟨⟨hI.safe, hI.sc, hI.wr, ?_, ?_, fun hg => by rw [hscr]; exact hg⟩, ?_, hn, ?_, ?_⟩, ?_⟩, ⟨?_, ?_⟩, ?_⟩
+  · rw [hE]; intro x hx; cases hx
+  · rw [hmu]; intro x hx; cases hx
+  · rw [hlog]; rfl
+  · rw [hmu]; intro x hx; cases hx
+  · rw [hmu]; intro x hx; cases hx
+  · rw [hmu]; intro x hx; cases hx
+  · rw [hE]; intro x hx; cases hx
+  · rw [hmu]; intro x hx; cases hx
+  · intro e he; rw [hmu] at he; cases he
+
+/-- ALL clauses of the trace monitor (C01, C04, C05, C07, C08) are silent on every run of the model for
+task trees WITH FAN-OUT, provided no fan-out lies below another one (`Fan1 tree`), RECORD SPLITTING
+INCLUDED — above the fan-out (the split runs are cloned for every branch; a record is acknowledged
+only when every piece was confirmed or filtered in EVERY branch) and inside the branches (a piece
+that fails in one branch dead-letters the ORIGINAL record, once): any fuel, window configuration,
+batches, order of the branches, DLQ replies, retries, filters, processor errors, destination nacks
+and every outcome of the run. Hypotheses: those of `monitor_sound_nosplit_fan1` without `NS scripts`,
+plus the tag discipline `FreshTags` of the run. (This subsumes `monitor_sound_linear` for trees
+whose task ids are all distinct.) -/
+theorem monitor_sound_fan1 (fuel : Nat) (tree : TaskNode) (scripts : List (Nat × List Reply))
+    (batches : List (List Rec)) (s₀ : PS)
+    (hfan : Fan1 tree) (hsrc : tree.kind = .source) (hnd : (tasksS tree).Nodup)
+    (hsorted : (batches.flatten.map Mon.root).Pairwise (· < ·))
+    (hlog : s₀.log = #[]) (hscr : s₀.scripts = scripts)
+    (hrp : RootPreserving scripts ((runBatches fuel tree batches).run.run s₀).2.log.toList)
+    (hft : FreshTags scripts batches ((runBatches fuel tree batches).run.run s₀).2.log.toList) :
+    Mon.run tree scripts batches ((runBatches fuel tree batches).run.run s₀).2.log.toList = [] := by
+  rw [run_nil_iff]
+  unfold Mon.runT
+  by_cases hwf : sourceWellFormed batches = true
+  · simp only [hwf, Bool.not_true, Bool.false_eq_true, if_false]
+    let G : Ctx := ⟨tree, scripts, batches⟩
+    have hs : Src G := ⟨hwf, hsorted⟩
+    have ht : TreeOKF G := ⟨hfan, hsrc, hnd⟩
+    obtain ⟨hI, hq, hw⟩ := initial_WInvS G s₀ hlog hscr
+    rcases hx : exec (runBatches fuel tree batches) s₀ with ⟨r, s'⟩
+    have e : (runBatches fuel tree batches).run.run s₀ = (r, s') := hx
+    rw [e] at hrp hft ⊢
+    exact runBatches_monG hs ht fuel batches [] s₀ s' r rfl hI hq hw hx hrp hft
+  · simp [hwf]
+
+/-- the same per property (`c = .c01`: the C01 clause, `.c05`, `.c07`, `.c08`, `.c04`) -/
+theorem C01_v2_monitor_sound_fan1 (fuel : Nat) (tree : TaskNode) (scripts : List (Nat × List Reply))
+    (batches : List (List Rec)) (s₀ : PS)
+    (hfan : Fan1 tree) (hsrc : tree.kind = .source) (hnd : (tasksS tree).Nodup)
+    (hsorted : (batches.flatten.map Mon.root).Pairwise (· < ·))
+    (hlog : s₀.log = #[]) (hscr : s₀.scripts = scripts)
+    (hrp : RootPreserving scripts ((runBatches fuel tree batches).run.run s₀).2.log.toList)
+    (hft : FreshTags scripts batches ((runBatches fuel tree batches).run.run s₀).2.log.toList) (c : Clause) :
+    Mon.runTagged c tree scripts batches ((runBatches fuel tree batches).run.run s₀).2.log.toList = [] := by
+  have := (run_nil_iff _ _ _ _).mp
+    (monitor_sound_fan1 fuel tree scripts batches s₀ hfan hsrc hnd hsorted hlog hscr hrp hft)
+  unfold Mon.runTagged
+  rw [this]
+  rfl
+
+/-! ## non-vacuity of the fan-out + splitting theorem -/
+namespace ExFanSplit
+open Conduit.Dlq
+
+/-- source → processor 1 → fan-out to (destination 2) and (processor 4 → destination 3) -/
+def tree : TaskNode := .mk 0 .source [.mk 1 .proc [.mk 2 .dest [], .mk 4 .proc [.mk 3 .dest []]]]
+def batches : List (List Rec) := [[⟨1, some 1⟩, ⟨2, some 2⟩, ⟨3, some 3⟩]]
+/-- P1 splits record 1 ABOVE the fan-out (the run is cloned for both branches). Branch 0: D2 confirms
+all four rows. Branch 1: P4 keeps the first piece of record 1 and filters the second, splits record 2
+INSIDE the branch and errors on record 3; D3 confirms the piece of record 1, confirms the first piece
+of record 2 and rejects the second. So record 1 is acknowledged (every piece confirmed or filtered in
+both branches), the ORIGINAL records 2 and 3 are dead-lettered. -/
+def scripts : List (Nat × List Reply) :=
+  [(1, [.proc [.multi [⟨1001, some 1⟩, ⟨2001, none⟩], .single ⟨2, some 2⟩, .single ⟨3, some 3⟩]]),
+   (2, [.dest none [.acks [(some 1, none), (none, none), (some 2, none), (some 3, none)]]]),
+   (4, [.proc [.single ⟨1001, some 1⟩, .filter, .multi [⟨3002, some 2⟩, ⟨4002, none⟩], .error none]]),
+   (3, [.dest none [.acks [(some 1, none), (some 2, none), (none, some {})]]]),
+   (9, [.dest none [.acks [(some 2, none)]], .dest none [.acks [(some 3, none)]]])]
+def s0 : PS := { win := Win.new 10 5, thr := 5, size := 10, dlqTask := 9, scripts := scripts, orders := [[0, 1]] }
+
+theorem hfan : Fan1 tree :=
+  .mk _ _ _ (fun _ n hn => by
+      rw [List.mem_singleton.mp hn]
+      exact .mk _ _ _ (fun h => absurd h (by decide)) (fun _ n hn => by
+        rcases List.mem_cons.mp hn with rfl | hn
+        · exact ExFan.lin_leaf _ _
+        · rw [List.mem_singleton.mp hn]
+          exact .mk _ _ _ (by decide) (fun n hn => by rw [List.mem_singleton.mp hn]; exact ExFan.lin_leaf _ _)))
+    (fun h => absurd h (by decide))
+example : tree.kind = .source := rfl
+example : (tasksS tree).Nodup := by decide
+example : ¬ NS scripts := by decide
+example : (batches.flatten.map Mon.root).Pairwise (· < ·) := by decide
+example : Mon.sourceWellFormed batches = true := by decide
+set_option maxRecDepth 100000 in
+theorem hrp : RootPreserving scripts ((runBatches 40 tree batches).run.run s0).2.log.toList := by decide +kernel
+set_option maxRecDepth 100000 in
+theorem hft : FreshTags scripts batches ((runBatches 40 tree batches).run.run s0).2.log.toList := by decide +kernel
+set_option maxRecDepth 100000 in
+example : ackedKeys ((runBatches 40 tree batches).run.run s0).2.log = [1, 2, 3] := by decide +kernel
+/-- the theorem applies to this run -/
+example : Mon.run tree scripts batches ((runBatches 40 tree batches).run.run s0).2.log.toList = [] :=
+  monitor_sound_fan1 40 tree scripts batches s0 hfan rfl (by decide) (by decide) rfl rfl hrp hft
+
+end ExFanSplit
 
 end Conduit.Funnel
